@@ -224,9 +224,9 @@ func (n *AbsfsNFS) UpdatePolicyOptions(newPolicy PolicyOptions) error {
 
 	// Update rate limiter while still holding the write lock (H2 fix)
 	if newPolicy.EnableRateLimiting && newPolicy.RateLimitConfig != nil {
-		n.rateLimiter = NewRateLimiter(*newPolicy.RateLimitConfig)
+		n.rateLimiter.Store(NewRateLimiter(*newPolicy.RateLimitConfig))
 	} else if !newPolicy.EnableRateLimiting {
-		n.rateLimiter = nil
+		n.rateLimiter.Store(nil)
 	}
 
 	// Resume accepting requests
